@@ -141,4 +141,65 @@ def maxPath (g : G D) (score : D → Int) (solid : D → Bool) : List (Nat × Di
     let (p1, u1) := maxPathArm g score solid false g.nodes.length (best, .L) [best] [(best, .L)]
     (maxPathArm g score solid true g.nodes.length (best, .R) u1 p1).1
 
+/-- a state of the beam search of `max_path_beam`: the path so far (entries `(node, side it was entered from)`), its
+    score and its status (0 = Active, 1 = End, 2 = Cycle) -/
+structure BState where
+  path : List (Nat × Dir)
+  score : Int
+  status : Nat
+
+/-- `expand_state`: one successor per edge on the exit side of the last node of the path; `none` = a panic -/
+def expandState (g : G D) (score : D → Int) (s : BState) : Option (List BState) :=
+  match s.path.getLast? with
+  | none => none
+  | some cur =>
+    match findEdges g cur.1 cur.2.flip with
+    | none => none
+    | some edges => edges.mapM fun e =>
+      match g.nodes[e.1]? with
+      | none => none
+      | some nn =>
+        let status : Option Nat :=
+          if s.path.any (fun p => p.1 == e.1) then some 2
+          else match findEdges g e.1 e.2.1.flip with
+            | none => none
+            | some es => some (if es.isEmpty then 1 else 0)
+        status.map fun st => ⟨s.path ++ [(e.1, e.2.1)], s.score + score nn.data, st⟩
+
+/-- one round of the `while active` loop: expand the active states, keep the others, stable sort by descending score,
+    truncate to the beam width; the flag tells whether any state was active -/
+def beamRound (g : G D) (score : D → Int) (beam : Nat) (states : List BState) : Option (List BState × Bool) :=
+  match states.mapM (fun s => if s.status == 0 then expandState g score s else some [s]) with
+  | none => none
+  | some parts => some ((parts.flatten.mergeSort (fun a b => decide (b.score ≤ a.score))).take beam, states.any (·.status == 0))
+
+def beamLoop (g : G D) (score : D → Int) (beam : Nat) : Nat → List BState → Option (List BState)
+  | 0, _ => none
+  | fuel + 1, states =>
+    match beamRound g score beam states with
+    | none => none
+    | some (ns, active) => if active then beamLoop g score beam fuel ns else some ns
+
+/-- the initial states: one per node without extensions on some side, else node 0 -/
+def beamInit (g : G D) (score : D → Int) : List BState :=
+  let sts := g.nodes.zipIdx.filterMap fun (ni : Node D × Nat) =>
+    let nl := ni.1.exts.numExtDir .L
+    let nr := ni.1.exts.numExtDir .R
+    if nl == 0 || nr == 0 then
+      some ⟨[(ni.2, if nl > 0 then Dir.R else Dir.L)], score ni.1.data, if nl == 0 && nr == 0 then 1 else 0⟩
+    else none
+  if sts.isEmpty then
+    match g.nodes[0]? with
+    | some n => [⟨[(0, .L)], score n.data, 0⟩]
+    | none => []
+  else sts
+
+/-- `max_path_beam(beam, score, _)`; `none` = a panic (`states[0]` on an empty beam, or a dangling extension). An active
+    path never repeats a node, so it is expanded at most `nodes.length` times. -/
+def maxPathBeam (g : G D) (beam : Nat) (score : D → Int) : Option (List (Nat × Dir)) :=
+  if g.nodes.isEmpty then some []
+  else match beamLoop g score beam (g.nodes.length + 2) (beamInit g score) with
+    | none => none
+    | some sts => sts.head?.map (·.path)
+
 end Graph
